@@ -341,7 +341,7 @@ func init() {
 		ID:        "C03",
 		Level:     "exploration",
 		Technique: "runtime monitoring: files written by an independent reference writer making random spec-legal encoding choices are read by ReadFile into generated compatible Go targets and compared with the model's expected values; out-of-width integers must produce errors",
-		Rule: "schema over the supported subset (depth<=4; unions null-first, null-second, single-branch, type-compatible multi-branch; fixed; nested collections) x 1..30 datums x writer choices (array/map blocks: one, many, size-prefixed, mixed; file blocks: any partition; codec absent/null/deflate/snappy) x canonical target + 3..5 variations (pointer depth, int/int16/int32/int64, float32 for exact doubles, null.*/time.Time wrappers, value vs pointer passed to ReadFile); " +
+		Rule: "schema over the supported subset (depth<=4; unions null-first, null-second, single-branch, type-compatible multi-branch; fixed; nested collections) x 1..30 datums x writer choices (array/map blocks: one, many, size-prefixed, mixed; file blocks: any partition; codec absent/null/deflate/snappy) x canonical target + 3..5 variations (pointer depth, int/int16/int32/int64, float32 for exact doubles, null.*/time.Time wrappers, value vs pointer passed to ReadFile); every ReadFile target already holds data and the callback overwrites the record it was given after copying it; " +
 			"distinct_nontrivial = distinct (schema shape, target shape) pairs read and compared",
 		Explanation: "refavro's writer knows nothing of the library; E3 FillFromDatum states what each datum must become in each target. Integers are occasionally drawn just outside the hinted width: the read must then fail and the record must not be delivered.",
 		Assumptions: []string{"double->float32 is only demanded for doubles exactly representable as float32", "enum and named-type references are outside the stated subset"},
@@ -366,7 +366,7 @@ func init() {
 		ID:        "C04",
 		Level:     "exploration",
 		Technique: "runtime monitoring: the same reference-written files are read into projected targets (fields deleted, permuted, added at any depth) and compared with the model; at codec level Read, Skip and read-into-empty-struct must consume exactly the record's bytes before a sentinel suffix",
-		Rule: "C03's file generator; per file the full target plus 8 projections (delete one, delete all, keep one, random subset, permutation, additions; recursively in nested records); codec level on every record with a 7-byte sentinel suffix; " +
+		Rule: "C03's file generator; per file the full target plus 8 projections (delete one, delete all, keep one, random subset, permutation, additions; recursively in nested records); codec level on every record with a 7-byte sentinel suffix; targets handed to ReadFile already hold data and are overwritten by the callback after each record; schema field names include option keywords (omitempty, string) and the Go identifiers of sibling fields; " +
 			"distinct_nontrivial = distinct (schema shape, projected target shape) pairs",
 		Explanation: "Absolute oracle: surviving fields must equal the model's expectation for the datum, added fields must be zero, the file must be consumed without error. Byte accounting: the exact encoded length of each record is known from the reference encoder, so over- or under-consumption by any Skip path (including size-prefixed blocks) is visible as a wrong remainder.",
 		Modes: func(tier string) []core.Mode {
